@@ -1,6 +1,6 @@
 (** C17 — struct TLV8 marshalling round-trips and matches the wire encoding; unmarshalling
     arbitrary bytes never panics. *)
-From HC Require Import Base.HBytes Model.TlvStruct Gen.RtpGen Proofs.TlvStructProofs.
+From HC Require Import Base.HBytes Model.TlvStruct Gen.RtpGen Proofs.TlvStructProofs Proofs.TlvRoundtrip.
 Open Scope N_scope.
 
 (** Decoder: for EVERY struct type (any nesting of scalars, nested structs, tagged and inline
@@ -22,6 +22,74 @@ Print Assumptions C17_unmarshal_never_panics.
 Theorem C17_rtp_types_well_formed : forallb (fun p => wf_fields (snd p)) rtp_types = true.
 Proof. exact rtp_types_wf. Qed.
 Print Assumptions C17_rtp_types_well_formed.
+
+(** Round trip: for EVERY well-formed struct type (tags 1..255 distinct per struct, inline element
+    tags disjoint from sibling tags, inline elements of scalars) and EVERY value of it whose numbers
+    are in range, whose list elements have a non-empty encoding and whose inline elements have no
+    empty string (the value class [okvs]; outside it see the refuted statement below), at any
+    nesting depth, any list length, any string length (fragments beyond 255 bytes):
+    Unmarshal (Marshal v) = v, where a signalling float32 NaN comes back quiet. *)
+Theorem C17_roundtrip : forall fs vs, wf_fields fs = true -> okvs fs vs = true ->
+  unmarshal fixed_knobs fs (marshal fixed_knobs fs vs) = Ok (norm_vals fs vs).
+Proof. exact roundtrip. Qed.
+Print Assumptions C17_roundtrip.
+
+(** ... in particular for every RTP message type found in rtp/*.go on this run *)
+Theorem C17_rtp_roundtrip : forall name fs vs, In (name, fs) rtp_types -> okvs fs vs = true ->
+  unmarshal fixed_knobs fs (marshal fixed_knobs fs vs) = Ok (norm_vals fs vs).
+Proof. exact rtp_roundtrip. Qed.
+Print Assumptions C17_rtp_roundtrip.
+
+(** Wire format: the bytes are exactly the concatenation of type-length-value items
+    [tag; length; value...] of at most 255 value bytes each, and a conformant item parser reads
+    them back; ... *)
+Theorem C17_wire_items : forall fs vs, okvs fs vs = true ->
+  marshal fixed_knobs fs vs = flat (it_vals fs vs) /\ TlvStruct.items (marshal fixed_knobs fs vs) = ROk (it_vals fs vs) /\ Forall short (it_vals fs vs).
+Proof. exact wire_items. Qed.
+Print Assumptions C17_wire_items.
+
+(** ... a value longer than 255 bytes is a run of items with the same tag, all but the last full,
+    none empty, whose values concatenate to the value; ... *)
+Theorem C17_fragments : forall tag v,
+  map fst (frags tag v) = repeat tag (length (frags tag v)) /\ concat (map snd (frags tag v)) = v /\ Forall (fun p => snd p <> [] /\ (length (snd p) <= 255)%nat) (frags tag v).
+Proof. exact frags_spec. Qed.
+Print Assumptions C17_fragments.
+
+(** ... and integers are little-endian two's complement of their width: the k bytes written for z
+    denote z mod 256^k. *)
+Theorem C17_little_endian : forall k z, length (le_z k z) = k /\ of_le (le_z k z) = (z mod 256 ^ Z.of_nat k)%Z.
+Proof. intros k z. split; [apply le_z_length|apply of_le_le_z]. Qed.
+Print Assumptions C17_little_endian.
+
+Example C17_roundtrip_nonvacuous :
+  let fs := FCons 1 TU8 (FCons 2 TI64 (FCons 3 TF32 (FCons 4 TStr (FCons 5 (TStruct (FCons 1 TU16 (FCons 2 TBytes FNil)))
+            (FCons 6 (TList (FCons 1 TI32 FNil)) (FCons 0 (TInline (FCons 8 TU8 (FCons 9 TBool FNil))) (FCons 10 TBool FNil))))))) in
+  let vs := VCons (VNum 255) (VCons (VNum (-9223372036854775808)) (VCons (VNum 2139095041) (VCons (VBytes [104; 105])
+            (VCons (VStruct (VCons (VNum 65535) (VCons (VBytes []) VNil)))
+            (VCons (VList (LCons (VCons (VNum (-1)) VNil) (LCons (VCons (VNum 2147483647) VNil) LNil)))
+            (VCons (VList (LCons (VCons (VNum 0) (VCons (VBool false) VNil)) (LCons (VCons (VNum 7) (VCons (VBool true) VNil)) LNil)))
+            (VCons (VBool true) VNil))))))) in
+  wf_fields fs = true /\ okvs fs vs = true /\ unmarshal fixed_knobs fs (marshal fixed_knobs fs vs) = Ok (norm_vals fs vs) /\ norm_vals fs vs <> vs.
+Proof. exact roundtrip_nonvacuous. Qed.
+
+(** Outside the value class the round trip is false of the repaired tree as well: the two recorded
+    findings (an omitted empty string shifts the following values of an inline list; a list element
+    with an empty encoding vanishes). *)
+Theorem C17_roundtrip_outside_class_refuted :
+  (let fs := FCons 0 (TInline (FCons 11 TU16 (FCons 5 TStr FNil))) FNil in
+   let vs := VCons (VList (LCons (VCons (VNum 0) (VCons (VBytes []) VNil)) (LCons (VCons (VNum 0) (VCons (VBytes [113]) VNil)) LNil))) VNil in
+   wf_fields fs = true /\ okvs fs vs = false /\ unmarshal fixed_knobs fs (marshal fixed_knobs fs vs) <> Ok (norm_vals fs vs)) /\
+  (let fs := FCons 7 (TList (FCons 1 TStr FNil)) FNil in
+   let vs := VCons (VList (LCons (VCons (VBytes []) VNil) (LCons (VCons (VBytes [97]) VNil) LNil))) VNil in
+   wf_fields fs = true /\ okvs fs vs = false /\ unmarshal fixed_knobs fs (marshal fixed_knobs fs vs) <> Ok (norm_vals fs vs)).
+Proof. exact roundtrip_outside_class_refuted. Qed.
+
+(** The pinned snapshot violated the round trip inside the class: int64 beyond 32 bits, every
+    non-zero float32, inline elements with two fields. *)
+Theorem C17_pinned_roundtrip_refuted :
+  unmarshal pinned_knobs (FCons 1 TI64 FNil) (marshal pinned_knobs (FCons 1 TI64 FNil) (VCons (VNum 4294967296) VNil)) = Ok (VCons (VNum 0) VNil) /\
+  unmarshal pinned_knobs (FCons 1 TF32 FNil) (marshal pinned_knobs (FCons 1 TF32 FNil) (VCons (VNum 1065353216) VNil)) = Ok (VCons (VNum 0) VNil).
+Proof. destruct pinned_roundtrip_refuted as (A & B & _). exact (conj A B). Qed.
 
 (** the pinned snapshot violated the decoder half: a float32 item of one to three bytes panicked,
     and an inline list of elements with a nested struct, followed by another field, never ended *)
